@@ -55,6 +55,22 @@ func ruleListSize(c *Ctx, r *R) {
 					}
 				}
 			})
+			// `l.ends = ends[T]{}`: a group of the list's fields (a struct held by value) replaced by its zero value
+			instrs(fn, func(b *ssa.BasicBlock, i int, in ssa.Instruction) {
+				st, ok := in.(*ssa.Store)
+				if !ok || !isZeroStruct(st.Val) {
+					return
+				}
+				fa, ok := st.Addr.(*ssa.FieldAddr)
+				if !ok || len(fn.Params) == 0 || fa.X != ssa.Value(fn.Params[0]) {
+					return
+				}
+				if sub, ok := derefType(fa.Type()).Underlying().(*types.Struct); ok {
+					for k := 0; k < sub.NumFields(); k++ {
+						z[canonField(derefType(fa.Type()), sub.Field(k).Name())] = true
+					}
+				}
+			})
 			// `*l = List[T]{}`: the whole struct is replaced by its zero value
 			instrs(fn, func(b *ssa.BasicBlock, i int, in ssa.Instruction) {
 				if st, ok := in.(*ssa.Store); ok && len(fn.Params) > 0 && st.Addr == ssa.Value(fn.Params[0]) && isZeroStruct(st.Val) {
